@@ -6,12 +6,26 @@ CLAIMED = {
              text="Generated-input search over operator x kind x shape-class pairs (every dispatch arm of the dynamic configuration is hit and listed in the evidence) with three oracles: broadcast metamorphic relation, acceptance closure, rejection of incompatible shapes, plus an exact scalar arithmetic model."),
  "C03": dict(tech="proptest-generated (shape, kind, index forms, in/out-of-range values) vs 1-based column-major reference model; supported-form baseline table", sec="§3 C03",
              text="Generated-input search over storage form x element kind x index-form pair x in/out-of-range values against a column-major reference model; the source matrix is re-read after every access."),
+ "C04": dict(tech="proptest-generated assignment histories (index forms of C03, scalar/vector sources, op-assign, invalid targets/sources) vs a model copy of the matrix compared after every statement", sec="§3 C04",
+             text="Stateful generated-input search: histories of 1-5 assignment statements on a mutable matrix; frame condition, shape, kind, written values and read-back are checked after every statement against a reference copy."),
+ "C05": dict(tech="proptest-generated statement histories over 5 names / 11 value families; per-statement snapshot comparison (values + mutability) with frame conditions and named-error demands", sec="§3 C05",
+             text="Stateful generated-input search: 4-25 statements per session, one interpret() call each; after every statement the whole symbol snapshot is compared with the previous one (failed statements change nothing; successful ones change only their target) and immutables keep their defining value."),
  "C11": dict(tech="proptest-generated tilings (row bands x blocks, scalar/vector/matrix blocks, inline or via variables, perturbed invalid variants) vs block-placement model", sec="§3 C11",
              text="Generated-input search over tilings of results up to 4x4 (8x8 thorough) with position-distinct elements so any misplacement is visible; invalid variants must be rejected."),
  "C12": dict(tech="exhaustive kind-pair and reshape enumeration + proptest values vs exact rational conversion model; supported-conversion baseline table", sec="§3 C12",
              text="All 14x14 kind pairs and all equal-count reshapes up to 16 elements are enumerated; boundary/random values are generated; results are compared with an exact rational model (truncate/clamp, identity on representable values, column-major reshape, distinct-element sets)."),
+ "C13": dict(tech="grammar-generated literal spellings (all forms of spec 4.2, suffixes/annotations, negation, kind boundaries) vs exact big-rational value and the host's correctly rounded decimal parser", sec="§3 C13",
+             text="Generated-input search over literal spellings; each is evaluated alone and compared with the exact value of its digits (nearest f64/f32, exact based/suffixed integers, reduced rationals, clamp-or-reject for unfit typed literals)."),
+ "C14": dict(tech="proptest-generated set pairs over 8-value universes of 8 element kinds with duplicate/alternative spellings, all operators and construction routes, comprehension shapes; mathematical-set reference + invariants on every observed set", sec="§3 C14",
+             text="Generated-input search: operands written in random order with duplicates and alternative spellings of equal values; results compared with mathematical sets; every observed set must be duplicate-free, of one kind and report its size."),
  "C15": dict(tech="proptest-generated (kind,start,step,end) cases vs exact rational progression model", sec="§3 C15",
              text="Generated-input search: every run draws ranges per kind (on/off grid, near the kind maximum, zero/negative steps, empty/single) and compares the element sequence with an exact rational reference; failures are shrunk by proptest to a replay file."),
+ "C16": dict(tech="proptest-generated arm lists (functions and match expressions, guards, tuple/array/enum patterns) in every order x all small arguments vs a reference arm evaluator; enumerated recurrences incl. 100 000-deep tail recursion", sec="§3 C16",
+             text="Generated-input search over arm lists and their orders with a reference evaluator (first matching arm whose guard holds), recurrences against closed forms in two binding styles, broadcast over matrices, and the error side (arity, no arm, non-exhaustive match)."),
+ "C17": dict(tech="proptest-generated transition systems rendered as state machines vs reference simulation; result and state sequence (from [fsm] trace events) compared; ill-formed and non-terminating variants", sec="§3 C17",
+             text="Generated-input search over small machines (guarded branches with overlaps, loops that make progress, array-pattern states) and inputs; the visited state sequence reconstructed from trace events must equal the simulated one; ill-formed machines must be rejected and non-terminating ones stopped by the limit."),
+ "C18": dict(tech="proptest-generated table pairs (0-2 shared columns, duplicate keys, five column kinds) x six joins in symbol and word form vs reference relational algebra compared as multisets; row/column selection in order", sec="§3 C18",
+             text="Generated-input search over table pairs with many-to-many matches; the join result is compared as a multiset of rows over the union of columns including optional-kind promotion and holes; row selection compared in order."),
 }
 ALL = ["C%02d" % i for i in range(1, 21)]
 checks = []
